@@ -185,7 +185,7 @@ def run(ck, tier):
             cfg = vlib.subst_cfg("Kmer", "KmerNeg.cfg", {"Variant": '"%s"' % variant})
             negs.append((variant, expect, pool.submit(vlib.tlc, "Kmer", "Kmer", None, cfg_text=cfg, workers=2, timeout=900)))
         # (C) words and random sequences through the real code
-        judge = Judge(ck, work, pool, 12 if thorough else 6)
+        judge = Judge(ck, work, pool, 6)
         wt = os.path.join(work, "words.ndjson")
         p = vlib.harness(["kmer", "words", "-n", 400 if thorough else 60, "-seed", ck.seed, "-out", wt] +
                          (["-big"] if thorough else []), cmd="vkmer")
